@@ -217,6 +217,11 @@ def check_transfer_output(case, out, seam_log):
             pile += [nr] * int(wt)
     k = min(int(fpv) - q, len(pile))
     draws = [e for e in seam_log if e["kind"] == "sample" and e["site"].endswith("random_transfer")]
+    if not draws and k == 0:
+        # nothing to draw: an implementation may skip the empty draw; the output must then be the untouched ballots
+        if got != base:
+            bad.append(("random-output", f"no surplus to transfer, yet output {fmt(got)} differs from the untouched ballots {fmt(base)}"))
+        return bad
     if len(draws) != 1:
         bad.append(("random-draw", f"{len(draws)} draws observed at the random.sample seam of random_transfer, expected exactly one"))
         return bad
